@@ -414,7 +414,7 @@ func init() {
 			return cp.ReplayFile(c, c.Args[1])
 		}
 		groups := RunC14Codec(c.Quick())
-		groups = append(groups, c14TextVsBinary(c.Quick()), c14TextReuse(c.Quick()), c14TextOptionWords(c.Quick()), c14TextCounts(c.Quick()), c14BinaryChunking(c.Quick()))
+		groups = append(groups, c14TextVsBinary(c.Quick()), c14TextReuse(c.Quick()), c14TextOptionWords(c.Quick()), c14TextCounts(c.Quick()), c14BinaryChunking(c.Quick()), c14ValueFrames(c.Quick()))
 		evals, distinct, viol := 0, 0, 0
 		var samples []interface{}
 		per := map[string]interface{}{}
